@@ -10,7 +10,7 @@ S: random histories (the same generator as C02, plus operator graphs): before an
 """
 import numpy as np
 
-from .. import common, histgen
+from .. import common, histgen, apalache
 from ..parallel import validate_chunks, pmap
 
 
@@ -30,6 +30,22 @@ def run(ctx):
               constraint='DigBound', coverage=True, timeout=1800)
     ctx.model('Heap', 'm_alias_bug', constants=dict(NOBJ=3, NBUF=5, AliasBug='TRUE'), invariants=['NoSharing'], constraint='DigBound',
               expect_violation='NoSharing')
+    # unbounded version of the same model: NoSharing as an inductive invariant, Frozen as an action invariant (Apalache); the
+    # negative control AliasBug must break the inductive step
+    if apalache.available():
+        runs = [('MC_HeapInd', 'IndInit', 'IndInv', 1, 'NoError'), ('MC_HeapIndBug', 'IndInit', 'IndInv', 1, 'Error')]
+        if not ctx.quick:
+            runs += [('MC_HeapInd', 'Init', 'IndInv', 0, 'NoError'), ('MC_HeapInd', 'IndInit', 'FrozenAct', 1, 'NoError')]
+        res = []
+        for mod, init, inv, length, want in runs:
+            got, wall = apalache.check(mod, init, inv, length, ctx.work)
+            res.append(dict(module=mod, init=init, inv=inv, length=length, outcome=got, expected=want, wall_s=round(wall, 1)))
+            ctx.log(f'apalache {mod} --init={init} --inv={inv} --length={length}: {got} (expected {want}), {wall:.1f}s')
+            if got != want and not got.startswith('unknown'):
+                raise common.SpecError(f'Apalache: {mod} {init}/{inv}: outcome {got}, expected {want}')
+        ctx.notes['apalache_inductive'] = res
+    else:
+        ctx.notes['apalache_inductive'] = 'apalache-mc not on PATH: skipped'
     public = sorted(n for n in dir(ptn) if not n.startswith('_'))
     ctx.notes['public_names'] = len(public)
     seeds = [ctx.replay['replay']['seed']] if ctx.replay is not None else [int(x) for x in rng.integers(1 << 30, size=ctx.pick(700, 16000))]
